@@ -119,7 +119,8 @@ OTHER_RULES = ["/* c */", "/**/", "/* a\n   b */", '@import "a.css";', "@import 
                "@page { margin: 1cm; @top-left { content: \"x\" } }", "@page x:left { size: a4 }",
                '@font-face { font-family: "x"; src: url(x) }', "@font-face {}", "@x y;", '@x y "s" 1 (a) [b] {c: d; e {f: g}}',
                "@y;", "a {}", "@media print {}", "@variables { v: 1px }", "@page {}",
-               '@unk { a { b: c } }', "@X-Y 1px;", "@x 1 + 2;", "@x a > b ~ c u + 0 + .5;", "@x { a + 2 { b: 1 > 2 } }"]
+               '@unk { a { b: c } }', "@X-Y 1px;", "@x 1 + 2;", "@x a > b ~ c u + 0 + .5;", "@x { a + 2 { b: 1 > 2 } }", "@x a/**/b 1/**/px \"s\"/**/c;",
+               "@x /*c*/ { a/**/: b/**/c }"]
 
 
 # ---- systematic value coverage: every preference row sees every numeric shape and every value kind
@@ -204,6 +205,8 @@ def ns_sheets(full):
                 rule = "%s { %s }" % (sel, body)
                 if where:
                     rule = "@media print { %s }" % rule
+                if where and k % 4 == 0:          # two container rules deep
+                    rule = "@media screen { %s }" % rule
                 out.append('%s@namespace p "http://p";\n@namespace q "http://q";\n%s' % (dflt, rule))
     return out
 
@@ -211,9 +214,10 @@ def ns_sheets(full):
 # ---- declaration blocks: every sequence (length <= 3, thorough 4) over two names x important or not x a comment, with
 # position-dependent values so that it is observable which duplicate survives and where the last semicolon goes
 DECL_ALPHABET = [("color", ""), ("color", " !important"), ("top", ""), ("top", " !important"), ("c\\olor", ""),
-                 ("/*c*/", None), ("foo", "")]
+                 ("/*c*/", None), ("foo", ""), ("a\\.b", "")]
 DECL_VALUES = {"color": ["red", "blue", "green", "black"], "top": ["0", "1px", "2px", "3px"],
-               "c\\olor": ["red", "blue", "green", "black"], "foo": ["a", "b", "c", "d"]}
+               "c\\olor": ["red", "blue", "green", "black"], "foo": ["a", "b", "c", "d"],
+               "a\\.b": ["1", "2", "3", "4"]}
 
 
 def decl_sheets(maxlen=3, per_sheet=12):
@@ -339,7 +343,86 @@ def _parse(text):
     import css_parser
     import logging
     css_parser.log.setLevel(logging.FATAL)
+    if isinstance(text, (list, tuple)) and text and text[0] == "hist":
+        sheet = css_parser.CSSParser(fetcher=lambda url: None, loglevel=logging.FATAL).parseString(text[1])
+        for op in text[2]:
+            apply_op(sheet, op)
+        return sheet
     return css_parser.CSSParser(fetcher=lambda url: None, loglevel=logging.FATAL).parseString(text)
+
+
+def _rule_at(sheet, path):
+    r = sheet
+    for i in path:
+        r = r.cssRules[i]
+    return r
+
+
+def apply_op(sheet, op):
+    """one API mutation of a parsed sheet; an operation the library rejects (it raises) leaves the sheet as it is"""
+    import css_parser
+    kind, path = op[0], op[1]
+    try:
+        r = _rule_at(sheet, path)
+        if kind == "margin":
+            r.margin = op[2]
+        elif kind == "atkeyword":
+            r.atkeyword = op[2]
+        elif kind == "cssText":
+            r.cssText = op[2]
+        elif kind == "prop_name":
+            [p for p in r.style.getProperties(all=True)][op[2]].name = op[3]
+        elif kind == "prop_priority":
+            [p for p in r.style.getProperties(all=True)][op[2]].priority = op[3]
+        elif kind == "prop_cssText":
+            [p for p in r.style.getProperties(all=True)][op[2]].cssText = op[3]
+        elif kind == "setProperty":
+            r.style.setProperty(op[2], op[3], op[4])
+        elif kind == "removeProperty":
+            r.style.removeProperty(op[2])
+        elif kind == "selectorText":
+            r.selectorText = op[2]
+        elif kind == "href":
+            r.href = op[2]
+        elif kind == "prefix":
+            r.prefix = op[2]
+        else:
+            raise ValueError("unknown op " + kind)
+    except ValueError:
+        raise
+    except Exception:  # noqa  (xml.dom exceptions etc.: a rejected assignment)
+        pass
+
+
+# sheets whose objects carry NON-DEFAULT literal spellings (upper case, escapes), and the API mutations applied to them
+# before any preference row: afterwards the literal the serializer may print must belong to the CURRENT value
+SPELLING_SHEET = ('@IMPORT "a.css";\n@NAMESPACE p "http://p";\n'
+                  '@page :first { margin: 0; @TOP-LEFT { content: "x" } @bottom-\\63 enter { content: "y" } }\n'
+                  'a { C\\olor: red !IMPORTANT; TOP: 0; ma\\rgin: 1px ! Im\\portant }\n'
+                  '@MEDIA print { p|b { C\\olor: blue } }\n@X-Unknown y;')
+SPELLING_OPS = [
+    ["margin", [2, 0], "@top-right"], ["margin", [2, 1], "@bottom-left"], ["margin", [2, 0], "@TOP-RIGHT"],
+    ["cssText", [2, 0], "@right-middle { content: \"z\" }"], ["cssText", [2, 1], "@LEFT-TOP { content: \"w\" }"],
+    ["atkeyword", [0], "@import"], ["atkeyword", [1], "@namespace"], ["atkeyword", [0], "@i\\mport"],
+    ["cssText", [0], "@import \"b.css\";"], ["cssText", [1], "@namespace p \"http://p2\";"],
+    ["href", [0], "c.css"], ["prefix", [1], "q"],
+    ["prop_name", [3], 0, "background-color"], ["prop_name", [3], 1, "left"], ["prop_name", [3], 2, "paddin\\g"],
+    ["prop_priority", [3], 0, ""], ["prop_priority", [3], 1, "important"], ["prop_priority", [3], 2, "IMPORTANT"],
+    ["prop_cssText", [3], 0, "color: green !important"], ["prop_cssText", [3], 2, "MARGIN: 2px"],
+    ["setProperty", [3], "c\\olor", "blue", ""], ["setProperty", [3], "color", "black", "important"],
+    ["setProperty", [3], "TOP", "1px", ""], ["setProperty", [3], "to\\p", "2px", "IMPORTANT"],
+    ["removeProperty", [3], "top"], ["setProperty", [4, 0], "color", "green", ""],
+    ["cssText", [3], "a { TOP: 5px; c\\olor: red }"], ["cssText", [4], "@media screen { p|b { COLOR: red } }"],
+    ["selectorText", [3], "A, B"], ["cssText", [5], "@y-other z;"],
+]
+SPELLING_PREFS = ["defaultAtKeyword", "defaultPropertyName", "defaultPropertyPriority", "keepAllProperties"]
+
+
+def history_sheets(rng, n_random):
+    out = [["hist", SPELLING_SHEET, []]] + [["hist", SPELLING_SHEET, [op]] for op in SPELLING_OPS]
+    for _ in range(n_random):
+        out.append(["hist", SPELLING_SHEET, [rng.choice(SPELLING_OPS) for _ in range(rng.randint(2, 4))]])
+    return out
 
 
 def x_decls(style):
@@ -356,7 +439,7 @@ def x_decls(style):
         elif isinstance(v, css_parser.css.CSSComment):
             out.append(["comment", ws_norm(v.cssText)])
         elif isinstance(v, css_parser.css.CSSUnknownRule):
-            out.append(["unknown", v.cssText])
+            out.append(["unknown", unknown_text(v.cssText)])
         else:
             out.append(["other", str(v)])
     return out
@@ -384,6 +467,19 @@ def num_norm(text):
         return "0" if t in ("-0", "") else t
     parts = keep.split(text)
     return "".join(x if i % 2 else num.sub(canon, x) for i, x in enumerate(parts))
+
+
+def unknown_text(t):
+    """text of an unknown @rule without its comments and with runs of whitespace outside strings / url() collapsed
+    (comments inside it are dropped with keepComments=False; a dropped comment must still separate its neighbours)"""
+    import re
+    num_norm("")
+    keep = _NUM_SPLIT[0]
+    parts = keep.split(t)
+    out = []
+    for i, x in enumerate(parts):
+        out.append(x if i % 2 else re.sub(r"\s+", " ", re.sub(r"/\*.*?\*/", " ", x, flags=re.S)))
+    return re.sub(r" +", " ", "".join(out)).strip()
 
 
 def ws_norm(t):
@@ -442,7 +538,7 @@ def x_rule(r, used):
     if t == r.VARIABLES_RULE:
         return ["variables", sorted((k, r.variables[k]) for k in r.variables.keys())]
     if t == r.UNKNOWN_RULE:
-        return ["unknown", r.cssText]
+        return ["unknown", unknown_text(r.cssText)]
     return ["?", r.cssText]
 
 
@@ -733,6 +829,10 @@ def shrink_case(text, pd, mini, what_class):
         d2 = {a: b for a, b in pd.items() if a != k}
         if fails(text, d2, mini):
             pd = d2
+    if isinstance(text, (list, tuple)):          # a mutation history: shrink the operations, keep the sheet
+        ops = shrink_seq(list(text[2]), lambda c: fails(["hist", text[1], list(c)], pd, mini), max_rounds=20) \
+            if text[2] else []
+        return ["hist", text[1], list(ops)], pd, mini
     # sheet: top-level rules as written by the default serializer
     try:
         sheet = _parse(text)
@@ -1233,13 +1333,15 @@ def run(ctx):
     numsheets = numeric_sheets(full=thorough)
     nssheets = ns_sheets(thorough)
     declsheets = decl_sheets(4 if thorough else 3)
-    sheets = [("corpus", t) for t in fixed] + [("num", t) for t in numsheets] + [("ns", t) for t in nssheets] + [("decl", t) for t in declsheets] + [("gen", t) for t in gen_sheets] + samples
+    histsheets = history_sheets(rng, 300 if thorough else 40)
+    hrows = factorial_rows(SPELLING_PREFS)
+    sheets = [("corpus", t) for t in fixed] + [("num", t) for t in numsheets] + [("ns", t) for t in nssheets] + [("decl", t) for t in declsheets] + [("hist", t) for t in histsheets] + [("gen", t) for t in gen_sheets] + samples
 
     # -- (b) skeleton correspondence on the same sheets
     s_rows = rows[:2] + [rows[i] for i in range(2, len(rows), 4 if thorough else 6)]
     sjobs = [(t, pd, mini) for name, t in sheets
              for pd, mini in (s_rows if name in ("gen", "corpus") else s_rows[:2] + s_rows[2::5])
-             if name not in ("ns", "decl") and (name != "num" or not thorough)]
+             if name not in ("ns", "decl", "hist") and (name != "num" or not thorough)]
     sres = ctx.pool_map(skeleton_case, sjobs, procs=6, chunksize=40)
     s_skipped, s_mism, s_done = 0, [], 0
     if binary:
@@ -1267,7 +1369,7 @@ def run(ctx):
     drows = factorial_rows(DECL_PREFS)
     numrows = rows if not thorough else small + [r for r in rows[2:] if r[1] or "omitLeadingZero" in r[0]]
     jobs = [(t, rows if name in ("gen", "corpus") else numrows if name == "num" else
-             (orows + (small if thorough else [])) if name == "ns" else drows if name == "decl" else small)
+             (orows + (small if thorough else [])) if name == "ns" else drows if name == "decl" else hrows if name == "hist" else small)
             for name, t in sheets]
     t0 = time.time()
     eres = ctx.pool_map(e2e_job, jobs, procs=6, chunksize=1)
@@ -1278,7 +1380,7 @@ def run(ctx):
         for i, v in res:
             if v[0] == "skip":
                 skipped += 1
-                skip_sheets.add(name if name not in ("gen", "corpus", "num", "ns", "decl") else t[:60])
+                skip_sheets.add(name if name not in ("gen", "corpus", "num", "ns", "decl", "hist") else str(t)[:60])
             else:
                 fails.append((t, job[1][i], v[1]))
     reported = {}
@@ -1292,7 +1394,7 @@ def run(ctx):
         t2, pd2, mini2 = shrink_case(t, pd, mini, klass(what))
         v = e2e_one(t2, pd2, mini2)
         what2 = v[1] if v and v[0] == "fail" else what
-        t2s = t2 if isinstance(t2, str) else t2.decode("latin-1")
+        t2s = t2 if isinstance(t2, (str, list)) else t2.decode("latin-1")
         wkey = json.dumps([t2s, pd2, mini2], sort_keys=True)
         if wkey in reported:
             continue
@@ -1340,12 +1442,14 @@ def run(ctx):
                 "grammar incl. random numeric shapes, %d numeric-matrix sheets [sign x integer part x fraction x unit], %d value-kind "
                 "sheets [colours, strings, urls, unicode-range, !important], %d namespace sheets [selector item kind as only user of a "
                 "prefix x top-level/@media x body kind] under the %d-row factorial of the omitting preferences, %d declaration-block sheets [every sequence over two names x "
-                "!important x comment x unknown name] under the %d-row factorial of the declaration preferences, %d repository sample sheets) = %d oracle evaluations, %d skipped because the DEFAULT "
+                "!important x comment x unknown name] under the %d-row factorial of the declaration preferences, %d mutation histories [a sheet with non-default literal "
+                "spellings + API assignments to atkeyword/margin/cssText/name/priority/setProperty] under the %d-row factorial "
+                "of the spelling preferences, %d repository sample sheets) = %d oracle evaluations, %d skipped because the DEFAULT "
                 "serialisation already does not round-trip; Out.append: %d random item sequences x random "
                 "preferences (%d raise in both, %d with >= 3 output elements); skeleton: %d (sheet, preferences) pairs "
                 "compared, %d out of the skeleton's scope; non-trivial = not skipped / >= 3 output elements" % (
                     len(rows), len(arr), len(space), len(sheets), len(gen_sheets), len(numsheets), len(KIND_SHEETS),
-                    len(nssheets), len(orows), len(declsheets), len(drows), len(samples), evals, skipped,
+                    len(nssheets), len(orows), len(declsheets), len(drows), len(histsheets), len(hrows), len(samples), evals, skipped,
                     len(acases), a_crash, a_nontrivial, s_done, s_skipped),
         "samples": [{"prefs": rows[5][0], "sheet": gen_sheets[0][:200]},
                     {"append_case": acases[-1]}, {"skipped_sheets": sorted(skip_sheets)[:8]}],
@@ -1390,7 +1494,7 @@ def replay(ctx, path):
             bad += bool(tv and tv[0] == "fail")
             continue
         r = e2e_one(w["sheet"], w["prefs"], w.get("minified", False))
-        print("replay prefs=%r sheet=%r -> %s" % (w["prefs"], w["sheet"][:200], r[1] if r else "holds"))
+        print("replay prefs=%r sheet=%r -> %s" % (w["prefs"], str(w["sheet"])[:300], r[1] if r else "holds"))
         bad += bool(r and r[0] == "fail")
     return 1 if bad else 0
 
